@@ -84,3 +84,12 @@ package types
 // the script can handle, not an index out of range that takes the end-blocker down
 //@ func (env *ExecuteEnv) getExternalDataFull
 //@ ensures (valIdx < 0 || valIdx >= len(env.request.RequestedValidators)) ==> err != nil
+
+// C01: a report reaches the handler only with at least one raw report and pairwise different external ids - ANY two, not
+// just neighbours. CheckValidReport then checks the count and that every id was requested; together: the report carries
+// exactly the requested ids, each once. (This is the only place a repeated id is refused.)
+//@ func (m MsgReportData) ValidateBasic
+//@ ensures err == nil ==> len(m.RawReports) >= 1
+//@ ensures err == nil ==> (forall i Int, j Int :: 0 <= i && i < j && j < len(m.RawReports) ==> m.RawReports[i].ExternalID != m.RawReports[j].ExternalID)
+//@ loop 0: invariant forall j :: 0 <= j && j < #i ==> has(uniqueMap, m.RawReports[j].ExternalID)
+//@ loop 0: invariant forall i Int, j Int :: 0 <= i && i < j && j < #i ==> m.RawReports[i].ExternalID != m.RawReports[j].ExternalID
